@@ -29,11 +29,24 @@ Theorem C02_dropped_is_silent :
 Proof. exact dropped_is_silent. Qed.
 Print Assumptions C02_dropped_is_silent.
 
-(* The two clauses the correspondence check evaluates hold of every run of the model, for every
-   sequence of datagrams against the long-lived endpoints. *)
+(* The three clauses the correspondence check evaluates (never raises; an ill-formed datagram is dropped silently;
+   a message of the tracker specification's domain that is neither a valid sighting nor a valid byebye triggers no
+   callback and leaves the known devices unchanged) hold of every run of the model, for every sequence of
+   datagrams against the long-lived endpoints. *)
 Theorem C02_spec_holds : forall i : input, spec_failures i (model_run i) = [].
 Proof. exact spec_holds. Qed.
 Print Assumptions C02_spec_holds.
+
+(* Tracker-level half of "anything else is dropped": for every datagram handed to the combined listener that
+   decodes to a message which C03.Spec classifies as neither a valid sighting nor a valid byebye (within that
+   specification's domain), no user callback runs and the set of known devices is unchanged - for every tracker
+   state, every oracle. *)
+Theorem C02_listener_inert :
+  forall url_of ipver dev (s : dstep) (t : tracker),
+    c_listener_inert url_of s (dkeys (devices t))
+      (obs_of (fst (do_step url_of ipver dev t s)) (snd (do_step url_of ipver dev t s))) = true.
+Proof. exact listener_inert. Qed.
+Print Assumptions C02_listener_inert.
 
 (* "a well-formed message is dispatched": everything the library itself builds is. *)
 Theorem C02_built_is_dispatched :
